@@ -529,11 +529,29 @@ class Sut:
             if kind == "mi":
                 _, a, auto, p = op
                 line = f"mi {caddr(a)} {int(auto)} {cpatch(p)}"
-                r = st.match_incoming(fresh(a), auto, make_patch(p))
+                # every argument form of the signature (positional / keyword / default left out): a lookup that
+                # does not ask for auto-create, or gives no patch, must behave like the explicit False / {}
+                pt = make_patch(p)
+                Sut.form = form = (getattr(Sut, "form", 0) + 1) % 5
+                plain = type(pt) is dict and not pt
+                if form == 1 and auto is False and plain:
+                    r = st.match_incoming(fresh(a))
+                elif form == 2 and auto is False:
+                    r = st.match_incoming(fresh(a), patch=pt)
+                elif form == 3 and plain:
+                    r = st.match_incoming(fresh(a), auto)
+                elif form == 4:
+                    r = st.match_incoming(address=fresh(a), auto_create=auto, patch=pt)
+                else:
+                    r = st.match_incoming(fresh(a), auto, pt)
             elif kind == "save":
                 _, ref, p = op
                 line = f"save {'N' if ref is None else ref} {cpatch(p)}"
-                r = st.save(None if ref is None else self.created[ref], make_patch(p))
+                pt = make_patch(p)
+                if type(pt) is dict and not pt and getattr(Sut, "form", 0) % 2:
+                    r = st.save(None if ref is None else self.created[ref])
+                else:
+                    r = st.save(None if ref is None else self.created[ref], pt)
             elif kind == "ma":
                 _, name, v = op
                 line = f"ma {ckey(name) if isinstance(name, str) else '!'} {cval(v)}"
